@@ -445,7 +445,33 @@ def inline_new_aliases(repo, ref):
                     own = [n for n in walk_own(fi.node) if (isinstance(n, ast.Attribute) and isinstance(n.ctx, (ast.Store, ast.Del)) and n.attr in attrs)]
                     in_loop = any(isinstance(a_, (ast.For, ast.While, ast.AsyncFor)) for a_ in _ancestors(st, fi.node))
                     if in_loop or any(_pos(n) >= _pos(st) for n in own):
-                        continue
+                        # ... or when no read of the alias can execute after such a store (CFG: from the binding to the store, and
+                        # from the store on to a read without passing the binding again)
+                        harmless = False
+                        try:
+                            _clear_analysis_caches()
+                            from .cfg import cfg_of as _cfg_of2
+                            g2 = _cfg_of2(fi)
+                            bn2 = g2.node_of(st)
+                            load_nodes2 = {g2.node_of(x).id for x in loads if g2.node_of(x) is not None}
+                            if bn2 is not None and len(load_nodes2) > 0:
+                                harmless = True
+                                from_b2 = g2.reachable(bn2.id)
+                                for n in own:
+                                    sn = g2.node_of(n)
+                                    if sn is None:
+                                        harmless = False
+                                        break
+                                    if sn.id not in from_b2 and not in_loop:
+                                        continue
+                                    after2 = g2.reachable(sn.id, avoid=(bn2.id,)) - {sn.id}
+                                    if after2 & load_nodes2 or sn.id in load_nodes2:
+                                        harmless = False
+                                        break
+                        except Exception:
+                            harmless = False
+                        if not harmless:
+                            continue
                 # calls executed between the binding and the last read (over-approximated: every call in the following statements
                 # of the block up to the last statement that reads the alias) must not reach a writer of a chain attribute
                 calls = [c for s in blk[idx + 1:last + 1] for c in ast.walk(s) if isinstance(c, ast.Call)]
